@@ -111,3 +111,68 @@ func verifC15Get32() {
 	}
 	verifCover("c15/get32/ok")
 }
+
+// verifC15Windows: the buffer is a window big[off:off+n] of a larger allocation (spare capacity
+// behind it, data in front of it): the length — not the capacity — decides whether the call is
+// refused, and nothing outside the first 8 / 4 bytes of the window changes.
+func verifC15Windows() {
+	total := 24
+	big := verifNondetBytes("big", total)
+	old := verifClone(big)
+	off := verifChoose(9)
+	n := verifChoose(13)
+	w := big[off : off+n]
+	width := 8
+	op := verifChoose(4)
+	if op >= 2 {
+		width = 4
+	}
+	var got64 uint64
+	var got32 uint32
+	v64 := verifNondetU64("v")
+	v32 := verifNondetU32("w")
+	panicked := verifTry(func() {
+		switch op {
+		case 0:
+			UInt64Put(w, v64)
+		case 1:
+			got64 = UInt64Get(w)
+		case 2:
+			UInt32Put(w, v32)
+		case 3:
+			got32 = UInt32Get(w)
+		}
+	})
+	verifAssert("window/refused-iff-len-short", panicked == (n < width))
+	for i := 0; i < total; i++ {
+		inFrame := !panicked && (op == 0 || op == 2) && i >= off && i < off+width
+		if !inFrame {
+			verifAssert("window/outside-untouched", big[i] == old[i])
+		}
+	}
+	if !panicked {
+		switch op {
+		case 0:
+			for i := 0; i < 8; i++ {
+				verifAssert("window/put64-le", big[off+i] == byte(v64>>(8*uint(i))))
+			}
+		case 1:
+			var want uint64
+			for i := 0; i < 8; i++ {
+				want |= uint64(old[off+i]) << (8 * uint(i))
+			}
+			verifAssert("window/get64-le", got64 == want)
+		case 2:
+			for i := 0; i < 4; i++ {
+				verifAssert("window/put32-le", big[off+i] == byte(v32>>(8*uint(i))))
+			}
+		case 3:
+			var want uint32
+			for i := 0; i < 4; i++ {
+				want |= uint32(old[off+i]) << (8 * uint(i))
+			}
+			verifAssert("window/get32-le", got32 == want)
+		}
+	}
+	verifCover("c15/window")
+}
